@@ -21,7 +21,7 @@ clean=$(run ""); cleanrace=$(run "-race")
 if ! git -C "$wt" apply "$m/patch.diff"; then echo "VERDICT $1: PATCH-DOES-NOT-APPLY"; git -C /repo worktree remove --force "$wt"; exit 1; fi
 (cd "$wt" && go build ./... ) > /dev/null 2>&1; build=$?
 mv "$dest/zz_mutant_demo_test.go" /tmp/zz-$$.go
-/tmp/wt/baseline.sh "$wt" > /tmp/conf-base-$$.out 2>&1; base=$?
+"$(dirname "$(readlink -f "$0")")"/baseline_dir.sh "$wt" > /tmp/conf-base-$$.out 2>&1; base=$?
 mv /tmp/zz-$$.go "$dest/zz_mutant_demo_test.go"
 mut=$(run ""); mutrace=$(run "-race")
 echo "VERDICT $1: build=$build baseline=$base demo(clean)=$clean demo(clean,-race)=$cleanrace demo(mutant)=$mut demo(mutant,-race)=$mutrace :: $(tail -1 /tmp/conf-base-$$.out)"
